@@ -10,7 +10,8 @@ Open Scope string_scope.
 
 Inductive macro := MIngress (e : event) | MPoll (c : nat) | MInit | MComplete | MRestore.
 
-(* ContextRuntime::run polled until it blocks: route pending engine output, else take the next inbox message *)
+(* ContextRuntime::run polled until it blocks: route pending engine output, else take the next inbox message;
+   a forward that finds the target inbox full leaves the context queued as a waiter of that inbox *)
 Fixpoint poll (cfg : config) (fuel : nat) (s : state) (c : nat) : state * list label :=
   match fuel with
   | O => (s, [])
@@ -18,7 +19,10 @@ Fixpoint poll (cfg : config) (fuel : nat) (s : state) (c : nat) : state * list l
     let l := match outq (cs s c) with [] => Recv c | _ :: _ => Route c end in
     match next cfg s l with
     | Some s' => let '(s2, ls) := poll cfg f s' c in (s2, l :: ls)
-    | None => (s, [])
+    | None => match next cfg s (Wait c) with
+              | Some s' => (s', [Wait c])
+              | None => (s, [])
+              end
     end
   end.
 
@@ -49,13 +53,14 @@ Fixpoint mcomplete (cfg : config) (fuel : nat) (s : state) : state * list label 
 
 Definition str_of_event (e : event) : string := str_of_N (e_ty e) ++ ":" ++ str_of_Z (e_id e) ++ ":" ++ str_of_Z (e_v e).
 Definition new_output (s s' : state) : list event := skipn (length (output s)) (output s').
+(* what Sender::capacity shows: queued messages plus slots promised to waiting senders *)
 Definition str_inboxes (cfg : config) (s : state) : string :=
-  join "," (map (fun c => str_of_nat (length (inbox (cs s c)))) (seq 0 (n_ctx cfg))).
+  join "," (map (fun c => str_of_nat (length (inbox (cs s c)) + length (rs s c))) (seq 0 (n_ctx cfg))).
 Definition str_consumed (cfg : config) (cp : list (nat * snap)) : string :=
   join "," (map (fun c => match find_snap c cp with Some sn => str_of_N (sn_consumed sn) | None => "-" end) (seq 0 (n_ctx cfg))).
 
 Definition obs (cfg : config) (r : string) (outs : list event) (s' : state) : string :=
-  "r=" ++ r ++ ";o=" ++ join "," (map str_of_event outs) ++ ";i=" ++ str_inboxes cfg s'.
+  r ++ ";" ++ join "," (map str_of_event outs) ++ ";" ++ str_inboxes cfg s'.
 
 (* one macro step: new state, new store of persisted checkpoints, expanded labels, observation *)
 Definition mstep (cfg : config) (fuel : nat) (s : state) (store : list (list (nat * snap))) (m : macro)
@@ -76,12 +81,12 @@ Definition mstep (cfg : config) (fuel : nat) (s : state) (store : list (list (na
     let '(s', ls) := mcomplete cfg fuel s in
     if Nat.ltb (length (completed s)) (length (completed s'))
     then let cp := snd (last (completed s') (0%N, [])) in
-         (s', (store ++ [cp])%list, ls, obs cfg "completed" [] s' ++ ";c=" ++ str_consumed cfg cp)
+         (s', (store ++ [cp])%list, ls, obs cfg "completed" [] s' ++ ";" ++ str_consumed cfg cp)
     else (s', store, ls, obs cfg "pending" [] s')
   | MRestore =>
     let cp := last store [] in
     let s' := restore cp in
-    (s', store, [], obs cfg "restored" [] s' ++ ";c=" ++ str_consumed cfg cp)
+    (s', store, [], obs cfg "restored" [] s' ++ ";" ++ str_consumed cfg cp)
   end.
 
 Fixpoint msteps (cfg : config) (fuel : nat) (s : state) (store : list (list (nat * snap))) (ms : list macro)
@@ -99,6 +104,7 @@ Definition str_of_label (l : label) : string :=
   | Ingress e => "I" ++ str_of_event e
   | Recv c => "R" ++ str_of_nat c
   | Route c => "F" ++ str_of_nat c
+  | Wait c => "W" ++ str_of_nat c
   | Init => "N"
   | BSend c => "B" ++ str_of_nat c
   | AckRecv => "A"
@@ -107,12 +113,17 @@ Definition str_of_label (l : label) : string :=
 Definition str_route (cfg : config) (tys : list N) : string :=
   join "," (map (fun t => str_of_N t ++ ">" ++ str_opt str_of_nat (route (prog cfg) t)) tys).
 
-(* One case: observations per macro step | routing table | expanded schedule | verdicts:
+(* the schedule of the transition system a macro schedule stands for (for inspection) *)
+Definition ctx_labels (n cap : nat) (blocking : bool) (p : list stream) (ms : list macro) : string :=
+  let cfg := {| n_ctx := n; cap := cap; mode := if blocking then Block else Drop; prog := p |} in
+  let '(os, ls, s, store) := msteps cfg 400 init [] ms in join " " (map str_of_label ls).
+
+(* One case: observations per macro step # routing table # verdicts:
    D = delivery_exact at the end, K = cut_consistent of every persisted checkpoint (in order) *)
 Definition ctx_case (n cap : nat) (blocking : bool) (p : list stream) (tys : list N) (ms : list macro) : string :=
   let cfg := {| n_ctx := n; cap := cap; mode := if blocking then Block else Drop; prog := p |} in
   let '(os, ls, s, store) := msteps cfg 400 init [] ms in
-  join "|" os ++ "#" ++ str_route cfg tys ++ "#" ++ join " " (map str_of_label ls)
+  join "|" os ++ "#" ++ str_route cfg tys
   ++ "#D=" ++ str_of_bool (delivery_exactb n s)
   ++ ";K=" ++ join "," (map (fun cp => str_of_bool (cut_consistentb n cp)) store).
 
